@@ -825,6 +825,21 @@ func replayMain(checks map[string]*Check) {
 		os.Exit(2)
 	}
 
+	if strings.Contains(string(rf.Case), `"worker_crash"`) {
+		// the recorded case is a crash of a worker process: the replay is the check itself
+		fmt.Printf("replay: the recorded violation is a crashed worker (%s); re-running the %s quick check\n",
+			rf.Signature, rf.Property)
+
+		cmd := exec.Command(os.Args[0], rf.Property, "--tier", "quick")
+		cmd.Stdout, cmd.Stderr = os.Stdout, os.Stderr
+
+		if err := cmd.Run(); err != nil {
+			os.Exit(1)
+		}
+
+		os.Exit(0)
+	}
+
 	ch, ok := checks[rf.Property]
 	if !ok || ch.Replay == nil {
 		fmt.Fprintf(os.Stderr, "no replay support for %s\n", rf.Property)
